@@ -75,8 +75,47 @@ func bitsEqual(got []uint64, set map[int]bool) (int, bool) {
 	return 0, true
 }
 
+// guarded returns a copy of p with spare capacity that holds canaries, and a function that reports a damaged canary.
+func guarded(p []int32) ([]int32, func() string) {
+	buf := make([]int32, len(p)+3)
+	copy(buf, p)
+	for i := len(p); i < len(buf); i++ {
+		buf[i] = int32(-0x0CA11AB1 - i)
+	}
+	return buf[:len(p):len(buf)], func() string {
+		for i := len(p); i < len(buf); i++ {
+			if buf[i] != int32(-0x0CA11AB1-i) {
+				return fmt.Sprintf("the spare capacity of a position list argument (len %d) was written: element %d beyond its length is now %d", len(p), i-len(p), buf[i])
+			}
+		}
+		for i := range p {
+			if buf[i] != p[i] {
+				return fmt.Sprintf("position list argument modified: element %d was %d, now %d", i, p[i], buf[i])
+			}
+		}
+		return ""
+	}
+}
+
+var keepResult func(func() string)
+
+func init() { keepResult = checker.Keep }
+
+func watchWords(what string, r []uint64) {
+	expect := append([]uint64(nil), r...)
+	vk.ScribbleU64(r)
+	keepResult(func() string {
+		for i := range expect {
+			if r[i] != expect[i] {
+				return fmt.Sprintf("%s: word %d was %#x, now %#x", what, i, expect[i], r[i])
+			}
+		}
+		return ""
+	})
+}
+
 func checkOf(c Case) *vk.Failure {
-	pos := append([]int32(nil), c.Positions...)
+	pos, posOK := guarded(c.Positions)
 	var got []uint64
 	if f := vk.Try(fmt.Sprintf("Of(%v, n=%v/%d)", c.Positions, c.HasN, c.N), func() {
 		if c.HasN {
@@ -125,10 +164,11 @@ func checkOf(c Case) *vk.Failure {
 			}
 		}
 	}
-	for i := range pos {
-		if pos[i] != c.Positions[i] {
-			return vk.Failf("of-mutates", "Of modified its position list")
-		}
+	if msg := posOK(); msg != "" {
+		return vk.Failf("of-mutates", "Of: %s", msg)
+	}
+	if len(got) <= 1<<12 {
+		watchWords(fmt.Sprintf("Of(%d positions)", len(c.Positions)), got)
 	}
 	return nil
 }
@@ -246,8 +286,9 @@ func checkBitmap(c Case) (f *vk.Failure) {
 
 func checkOfMany(c Case) *vk.Failure {
 	subs := make([][]int32, len(c.Subs))
+	oks := make([]func() string, len(c.Subs))
 	for i := range c.Subs {
-		subs[i] = append([]int32(nil), c.Subs[i]...)
+		subs[i], oks[i] = guarded(c.Subs[i])
 	}
 	sizes := append([]int32(nil), c.Sizes...)
 	var got []uint64
@@ -276,6 +317,12 @@ func checkOfMany(c Case) *vk.Failure {
 	if p, ok := bitsEqual(got, set); !ok {
 		return vk.Failf("ofmany-bits", "OfMany(%v, %v): bit %d is wrong (words %#x)", c.Subs, c.Sizes, p, got)
 	}
+	for i, ok := range oks {
+		if msg := ok(); msg != "" {
+			return vk.Failf("ofmany-mutates", "OfMany(%v, %v), sub-list %d: %s", c.Subs, c.Sizes, i, msg)
+		}
+	}
+	watchWords("OfMany", got)
 	return nil
 }
 
@@ -289,9 +336,12 @@ func checkBuilder(c Case) *vk.Failure {
 	for si, s := range c.Steps {
 		switch s.Kind {
 		case "extend":
-			pos := append([]int32(nil), s.Positions...)
+			pos, posOK := guarded(s.Positions)
 			if f := vk.Try(fmt.Sprintf("step %d: Extend(%v, %d) at Offset %d", si, s.Positions, s.Size, offset), func() { b.Extend(pos, s.Size) }); f != nil {
 				return f
+			}
+			if msg := posOK(); msg != "" {
+				return vk.Failf("extend-mutates", "step %d Extend(%v, %d): %s", si, s.Positions, s.Size, msg)
 			}
 			for _, p := range s.Positions {
 				a := offset + int64(p)
